@@ -179,7 +179,12 @@ impl Axecutor {
             let fd_ptr = ax.reg_read_64(RDI)?;
 
             ax.mem_write_64(fd_ptr, read_end)?;
-            ax.mem_write_64(fd_ptr + 8, write_end)?;
+            ax.mem_write_64(
+                fd_ptr.checked_add(8).ok_or_else(|| {
+                    AxError::from("pipe: the descriptor array reaches past the end of the address space")
+                })?,
+                write_end,
+            )?;
 
             ax.reg_write_64(RAX, 0)?;
 
